@@ -228,6 +228,10 @@ func formatArg(s *State, verb byte, arg Val, format string) Text {
 		}
 		return Text{[]Frag{{Kind: FNum, Term: a, Verb: verb, GoType: goType}}}
 	}
+	if verb == 'v' || verb == 's' {
+		// a composite value rendered by fmt: an unknown string (only used in messages)
+		return atom(fmt.Sprintf("fmt(%T)", arg))
+	}
 	unsupported("fmt: argument of kind %T for %%%c in %q", arg, verb, format)
 	return Text{}
 }
